@@ -11,7 +11,10 @@ use std::hash::{Hash, Hasher};
 use std::path::PathBuf;
 use std::time::Instant;
 
-pub const VERIF_DIR: &str = "/verif";
+/// Root of the verification tree (scratch, evidence, data). `VERIF_HOME` overrides it for side-by-side runs (mutation sweep).
+pub fn verif_dir() -> PathBuf {
+    PathBuf::from(std::env::var("VERIF_HOME").unwrap_or_else(|_| "/verif".to_string()))
+}
 
 #[derive(Debug, Clone, Copy, PartialEq, Eq)]
 pub enum Tier {
@@ -308,8 +311,8 @@ where
     cfg.failure_persistence = None;
     cfg.rng_seed = RngSeed::Fixed(seed);
     cfg.max_shrink_iters = 20000;
-    cfg.max_global_rejects = cases.saturating_mul(64).max(65536);
-    cfg.max_local_rejects = 1 << 20;
+    cfg.max_global_rejects = u32::MAX;
+    cfg.max_local_rejects = u32::MAX; // cumulative over the whole shard in proptest: generator rejection rates are measured separately
     cfg.verbose = 0;
     let mut runner = TestRunner::new(cfg);
     let cell = RefCell::new(std::mem::take(st));
@@ -365,6 +368,8 @@ impl Drawer {
     pub fn new(ctx: &Ctx, part: &str, shard: u64) -> Self {
         let mut cfg = Config::default();
         cfg.failure_persistence = None;
+        cfg.max_local_rejects = u32::MAX; // proptest counts local rejects cumulatively per runner
+        cfg.max_global_rejects = u32::MAX;
         Drawer { runner: TestRunner::new_with_rng(cfg, rng_for(ctx, part, shard)) }
     }
     pub fn draw<S: Strategy>(&mut self, s: &S) -> S::Value {
@@ -373,7 +378,7 @@ impl Drawer {
 }
 
 pub fn replay_dir(id: &str) -> PathBuf {
-    PathBuf::from(VERIF_DIR).join("replays").join(id)
+    verif_dir().join("replays").join(id)
 }
 
 pub fn write_replay(id: &str, fl: &Failure) -> PathBuf {
@@ -392,7 +397,7 @@ pub fn write_evidence(ctx: &Ctx, out: &Outcome, violations: u64) {
     if std::env::var("VERIF_NO_EVIDENCE").is_ok() {
         return;
     }
-    let dir = PathBuf::from(VERIF_DIR).join("evidence");
+    let dir = verif_dir().join("evidence");
     let _ = std::fs::create_dir_all(&dir);
     let st = &out.stats;
     let mut samples: Vec<Value> = vec![];
